@@ -1,5 +1,6 @@
 import ComposeVerif.Lemmas.AuditCmd
 import ComposeVerif.Lemmas.Graph
+import ComposeVerif.Lemmas.Equiv
 import ComposeVerif.Neg.C10
 import ComposeVerif.Lemmas.Consistency
 import ComposeVerif.Lemmas.Validate
@@ -214,6 +215,26 @@ theorem consistentB_iff (p : Proj) (hnd : p.enabled.Nodup) : consistentB p = tru
     simp
   rw [h1, h2, and_assoc]
 
+/-! ## every iteration order -/
+
+/-- the specification does not depend on the order of any Go map -/
+theorem consistent_order_independent (p p' : Proj) (hp : ProjEquiv p p') : ConsistentFull p ↔ ConsistentFull p' :=
+  ⟨consistentFull_equiv hp, consistentFull_equiv hp.symm⟩
+
+/-- **acceptance is the same for every iteration order** of the services map, of each `depends_on` / `networks`
+map and of the secrets map — on projects without the ambiguous shape (false without it: `Neg.checkConsistency_order_dependent`) -/
+theorem checkConsistency_order_independent_partial (p p' : Proj) (hp : ProjEquiv p p')
+    (hnd : p.enabled.Nodup) (hnd' : p'.enabled.Nodup) (hn : NoAmbiguousSelfDep p) :
+    checkConsistency p = none ↔ checkConsistency p' = none := by
+  rw [checkConsistency_iff_partial p hnd hn, checkConsistency_iff_partial p' hnd' (noAmbiguous_equiv hp hn)]
+  exact consistent_order_independent p p' hp
+
+/-- rejection of a project that breaks a rule does not depend on the order either (no hypothesis) -/
+theorem rejection_order_independent (p p' : Proj) (hp : ProjEquiv p p') (e : String × Svc) (he : e ∈ p.services) (r : Rule)
+    (hbad : ¬ Holds p e.2 r) : ∃ err, checkConsistency p' = some err := by
+  obtain ⟨s', hs', hse⟩ := hp.fwd e.1 e.2 he
+  exact consistency_complete_rule p' (e.1, s') hs' r fun h => hbad (holds_equiv hp.symm hse.symm r h)
+
 /-! ## non-vacuity -/
 
 /-- a consistent project with a build, networks, a `service:` reference, an optional dependency on a disabled
@@ -237,6 +258,9 @@ example : checkConsistency exampleProj = none := by decide
 example : ConsistentFull exampleProj :=
   (consistentB_iff exampleProj (by decide)).mp (by decide)
 example : consistentB exampleProj = true := by decide
+/-- reordering the services map is a `ProjEquiv` -/
+example : ProjEquiv exampleProj { exampleProj with services := exampleProj.services.reverse, secrets := exampleProj.secrets } :=
+  ProjEquiv.of_perm exampleProj _ (List.reverse_perm _) _ (List.Perm.refl _)
 
 /-- a graph with a cycle that is only found from the second start vertex's subtree -/
 example : hasCycle [("a", ["b"]), ("b", ["c"]), ("c", ["b"])] = true := by decide
